@@ -62,7 +62,10 @@ def oracle_c01(rr: Any, spec: Dict[str, Any]) -> List[Violation]:
     # tasks registered while the worker runs: a message naming one is known iff its processing began after the
     # registration
     late = {nm for nm, ts in (spec.get("tasks") or {}).items() if ts.get("late_at") is not None}
-    reg_i = {e["task"]: e["i"] for e in tr if e["k"] == "register"}
+    reg_i: Dict[str, int] = {}
+    for e in tr:
+        if e["k"] == "register":
+            reg_i.setdefault(e["task"], e["i"])  # (the first registration: a name may be registered again later)
     cb_i = {}
     for e in tr:
         if e["k"] == "cb_enter":
